@@ -16,13 +16,14 @@ Record range := mkrange { r_left : option Z; r_linc : bool; r_right : option Z; 
 Record fopts := mkopts {
   o_optional : bool; o_default : option string; o_options : list string;
   o_range : option range; o_string : bool;
-  o_dep : option (bool * string)   (* optional=dep (false, dep) / optional=!dep (true, dep); only with o_optional *) }.
-Definition no_opts : fopts := mkopts false None [] None false None.
+  o_dep : option (bool * string);  (* optional=dep (false, dep) / optional=!dep (true, dep); only with o_optional *)
+  o_inherit : bool                 (* inherit: the key is also looked up in the enclosing sections (valuer.go) *) }.
+Definition no_opts : fopts := mkopts false None [] None false None false.
 (* parseKeyAndOptions returns options == nil iff the tag has no option segment *)
 Definition opts_nil (o : fopts) : bool :=
   negb (o_optional o) && (match o_default o with None => true | _ => false end) &&
   (match o_options o with [] => true | _ => false end) &&
-  (match o_range o with None => true | _ => false end) && negb (o_string o).
+  (match o_range o with None => true | _ => false end) && negb (o_string o) && negb (o_inherit o).
 
 Record fdecl (T : Type) := mkfield { f_key : string; f_opts : fopts; f_anon : bool; f_ty : T }.
 Arguments mkfield {T}. Arguments f_key {T}. Arguments f_opts {T}. Arguments f_anon {T}. Arguments f_ty {T}.
@@ -290,7 +291,7 @@ Definition from_string (t : ty) (o : fopts) (d : jv) : result val :=
    optional=!dep -- exactly one of the two, and the field is optional iff dep is present *)
 Definition has_key (k : string) (m : obj) : bool := match olookup k m with Some _ => true | None => false end.
 Definition set_optional (o : fopts) (b : bool) : fopts :=
-  mkopts b (o_default o) (o_options o) (o_range o) (o_string o) (o_dep o).
+  mkopts b (o_default o) (o_options o) (o_range o) (o_string o) (o_dep o) (o_inherit o).
 Definition resolve_opts (o : fopts) (key : string) (m : obj) : result fopts :=
   if o_optional o then
     match o_dep o with
@@ -762,3 +763,80 @@ Definition run_history (h : list call) : list (result val) := map run_call h.
    content type) -- for every method; without a body the struct is filled from the empty object *)
 Definition parse_json_body (method : string) (body : option jv) (n : nat) (t : ty) : result val :=
   match body with Some d => unmarshal n t d | None => unmarshal n t (JObj []) end.
+
+(* ------------------------------------------------------------------ inherit (valuer.go: recursiveValuer)
+   A field tagged `inherit` is looked up in the object of its own struct first, then in the objects of the enclosing
+   structs (nearest first).  HEAD behaviour, pinned: when the key is present in the child AND in an enclosing object
+   and both hold a nested object, the child's entries win and the enclosing object's entries for the keys the child
+   LACKS are added (a nested section is merged, not replaced); a non-object value of the child is taken as is.
+   The chain of enclosing objects restarts inside slice / map elements (fillSlice / generateMap call Unmarshal afresh)
+   and is empty for a struct filled from the empty object.
+   The model is a document transformation: `inherit_doc t anc d` writes, at every struct level, the value an `inherit`
+   field resolves to under that field's key; the inherit-free model then runs on the result. *)
+Fixpoint inh_lookup (k : string) (chain : list obj) : option jv :=
+  match chain with
+  | [] => None
+  | m :: rest =>
+      match olookup k m with
+      | None => inh_lookup k rest
+      | Some (JObj vm) =>
+          match inh_lookup k rest with
+          | Some (JObj pm) => Some (JObj (vm ++ filter (fun kv => negb (has_key (fst kv) vm)) pm))
+          | _ => Some (JObj vm)
+          end
+      | Some v => Some v
+      end
+  end.
+
+Fixpoint areplace (k : string) (v : jv) (m : obj) : obj :=
+  match m with
+  | [] => [(k, v)]
+  | (k', v') :: r => if String.eqb k k' then (k, v) :: r else (k', v') :: areplace k v r
+  end.
+
+Fixpoint inherit_doc (t : ty) (anc : list obj) (d : jv) {struct t} : jv :=
+  match t with
+  | Prim _ => d
+  | Ptr t' => inherit_doc t' anc d
+  | Slice et => match d with JArr l => JArr (map (inherit_doc et []) l) | _ => d end
+  | Map et => match d with JObj m => JObj (map (fun kv => (fst kv, inherit_doc et [] (snd kv))) m) | _ => d end
+  | Struct fs =>
+      match d with
+      | JObj m =>
+          JObj (fold_left (fun acc f =>
+                  if f_anon f then
+                    match inherit_doc (deref (f_ty f)) anc (JObj acc) with JObj acc' => acc' | _ => acc end
+                  else
+                    let found := if o_inherit (f_opts f) then inh_lookup (f_key f) (m :: anc) else olookup (f_key f) m in
+                    match found with
+                    | Some v => areplace (f_key f) (inherit_doc (f_ty f) (m :: anc) v) acc
+                    | None => acc
+                    end) fs m)
+      | _ => d
+      end
+  end.
+
+Fixpoint has_inherit (t : ty) : bool :=
+  match t with
+  | Prim _ => false
+  | Ptr t' | Slice t' | Map t' => has_inherit t'
+  | Struct fs => existsb (fun f => o_inherit (f_opts f) || has_inherit (f_ty f)) fs
+  end.
+
+Definition unmarshal_inh (n : nat) (t : ty) (d : jv) : result val :=
+  unmarshal n t (if has_inherit t then inherit_doc t [] d else d).
+
+(* ------------------------------------------------------------------ env= (processFieldWithEnvValue, 641-669): a non-empty
+   environment value replaces the document's; it must be one of options= exactly; then by reflect.Kind of the field:
+   bool via strconv.ParseBool, string as is, every other kind as a json.Number (range=, overflow tests).
+   (reflect.Int64 -- int64 as well as time.Duration -- goes through time.ParseDuration: not modelled, not generated.) *)
+Definition parse_bool_strconv (s : string) : option bool :=
+  if existsb (String.eqb s) ["1"; "t"; "T"; "TRUE"; "true"; "True"]%string then Some true
+  else if existsb (String.eqb s) ["0"; "f"; "F"; "FALSE"; "false"; "False"]%string then Some false else None.
+Definition env_value (t : ty) (o : fopts) (ev : string) : result val :=
+  if negb (in_options o ev) then Err E_options else
+  match t with
+  | Prim KBool => match parse_bool_strconv ev with Some b => Ok (VBool b) | None => Err E_parse end
+  | Prim KStr => Ok (VStr ev)
+  | _ => json_number t o ev (mkfi true true true)
+  end.
